@@ -19,3 +19,24 @@ def run(ctx):
     bundles = c03.gen_bundles(rng, w, thorough)
     ctx.both([f'bundle.write {b}' for b in bundles])
     ctx.both([f'bundle.write.plain {b}' for b in bundles])
+    # CountingWriter accounting (observation point CountingWriter.Written): Write / ReadFrom sequences, three destination kinds
+    ctx.both(cw_ops(rng, 150 if not thorough else 3000))
+
+
+def cw_ops(rng, n):
+    ops = []
+    sizes = [0, 1, 100, 32767, 32768, 32769, 65536, 65537, 100000]
+    for kind in ('buf', 'plain', 'short', 'hard'):
+        for total in sizes:
+            for chunk in (1 if total <= 100 else 4096, 32768, 40000, 1 << 20):
+                for room in ((0,) if kind in ('buf', 'plain') else (0, 1, total // 2, 32768, 32769, total, total + 5)):
+                    ops.append(f'cw.seq {kind} {room} r{total}/{chunk}')
+                    ops.append(f'cw.seq {kind} {room} w7,r{total}/{chunk},w3,r5/2')
+    for _ in range(n):
+        kind = rng.choice(['buf', 'plain', 'short', 'hard'])
+        seq = ','.join(rng.choice([f'w{rng.choice(sizes)}', f'r{rng.choice(sizes)}/{rng.choice([1, 7, 4096, 32768, 32769, 100000])}']) for _ in range(rng.randrange(1, 6)))
+        seq = ','.join(o for o in seq.split(',') if not (o.startswith('r') and int(o[1:].split('/')[0]) > 1000 and o.endswith('/1')))
+        if seq:
+            ops.append(f'cw.seq {kind} {rng.choice([0, 10, 40000, 70000, 200000])} {seq}')
+    return list(dict.fromkeys(ops))
+
